@@ -188,7 +188,11 @@ func (d *Doc) ToTree(c Chooser) *dt.File {
 			f.Nodes = append(f.Nodes, u)
 		case *RPC:
 			u := dt.N("URL", b.Path).WithID("url:" + b.Path)
-			u.Add(dt.N("Protocol", "json-rpc-2.0").WithID("url:" + b.Path + ".protocol"))
+			// the Protocol directive may be written before or after the methods of its URL
+			protoLast := c.Choose("rpcorder", 2) == 1
+			if !protoLast {
+				u.Add(dt.N("Protocol", "json-rpc-2.0").WithID("url:" + b.Path + ".protocol"))
+			}
 			for _, m := range b.Methods {
 				id := "rpc:" + m.Name + " " + b.Path
 				n := dt.N("Method", m.Name).WithAnn(m.Ann).WithID(id)
@@ -205,6 +209,9 @@ func (d *Doc) ToTree(c Chooser) *dt.File {
 					n.Add(schemaNode("Result", m.Result, id+".result"))
 				}
 				u.Add(n)
+			}
+			if protoLast {
+				u.Add(dt.N("Protocol", "json-rpc-2.0").WithID("url:" + b.Path + ".protocol"))
 			}
 			f.Nodes = append(f.Nodes, u)
 		}
